@@ -215,8 +215,9 @@ func sorted(l []string) []string {
 func nameVec(n pkix.Name) string {
 	n.Organization, n.OrganizationalUnit, n.Country, n.Locality, n.Province = sorted(n.Organization), sorted(n.OrganizationalUnit), sorted(n.Country), sorted(n.Locality), sorted(n.Province)
 	n.StreetAddress, n.PostalCode, n.DomainComponent, n.EmailAddress = sorted(n.StreetAddress), sorted(n.PostalCode), sorted(n.DomainComponent), sorted(n.EmailAddress)
-	return fmt.Sprintf("CN=%q O=%q OU=%q C=%q L=%q ST=%q STREET=%q PC=%q SN=%q DC=%q E=%q", n.CommonName, n.Organization, n.OrganizationalUnit,
-		n.Country, n.Locality, n.Province, n.StreetAddress, n.PostalCode, n.SerialNumber, n.DomainComponent, n.EmailAddress)
+	return fmt.Sprintf("CN=%q O=%q OU=%q C=%q L=%q ST=%q STREET=%q PC=%q SN=%q DC=%q E=%q JL=%q JST=%q JC=%q OID=%q", n.CommonName, n.Organization, n.OrganizationalUnit,
+		n.Country, n.Locality, n.Province, n.StreetAddress, n.PostalCode, n.SerialNumber, n.DomainComponent, n.EmailAddress,
+		sorted(n.JurisdictionLocality), sorted(n.JurisdictionProvince), sorted(n.JurisdictionCountry), sorted(n.OrganizationIDs))
 }
 
 func strEq(a, b []string) bool {
@@ -283,6 +284,7 @@ func exec(line string) zv.Out {
 	} else {
 		tags = append(tags, "issued-by="+f[4])
 	}
+	tags = append(tags, x509rig.NameClasses(t.Subject)...)
 	der, parent, _, err := create(tc)
 	if err != nil {
 		return zv.Out{Go: "err", Viol: "CreateCertificate failed on a template inside the documented domain: " + err.Error(), Tags: tags}
@@ -562,5 +564,5 @@ var _ = net.IPv4len
 
 func init() {
 	zv.Register(&zv.Prop{ID: "C04", Topic: "c04", Gen: gen, Exec: exec,
-		Rule: "templates drawn over the documented field domain (serials incl. 0, negative and 160-bit; names; validity in the UTCTime and GeneralizedTime ranges and at their boundaries; KeyUsage 0..511; known/unknown EKUs; basic constraints with MaxPathLen -1/0/unset/n; key ids; DNS/email/IP SANs incl. IPv4 in 16-byte form; AIA; CRLDP; policies; name constraints with DNS/email/IP/directory names; extra extensions incl. ones overriding generated extensions) x subject key {RSA-1024/2048, P-224..P-521, Ed25519} x every signature algorithm CreateCertificate accepts for the signer x self-signed/issued; a case is one distinct template+keys; T3 = field-by-field comparison with the template, CheckSignatureFrom(parent) and standard-library signature verification"})
+		Rule: "templates drawn over the documented field domain (serials incl. 0, negative and 160-bit; names whose attribute values (CN, O, OU, L, ST, STREET, SN, EV jurisdiction, organizationIdentifier; also in directory-name constraints and the issuer) are drawn from printable ASCII, ASCII outside PrintableString, Latin-1, runes >= U+0100 whose low byte is a PrintableString character alone and mixed with printable ASCII, 22 Unicode blocks up to plane 14, UTF-8 length boundaries, real-world names, uniformly random code points; validity in the UTCTime and GeneralizedTime ranges and at their boundaries; KeyUsage 0..511; known/unknown EKUs; basic constraints with MaxPathLen -1/0/unset/n; key ids; DNS/email/IP SANs incl. IPv4 in 16-byte form; AIA; CRLDP; policies; name constraints with DNS/email/IP/directory names; extra extensions incl. ones overriding generated extensions) x subject key {RSA-1024/2048, P-224..P-521, Ed25519} x every signature algorithm CreateCertificate accepts for the signer x self-signed/issued; a case is one distinct template+keys; T3 = field-by-field comparison with the template, CheckSignatureFrom(parent) and standard-library signature verification"})
 }
